@@ -16,6 +16,7 @@ import (
 	"sort"
 	"strings"
 	"sync"
+	"time"
 )
 
 func init() {
@@ -159,10 +160,16 @@ func vdrCorpus(dir string) map[string]string {
 func runVdrProperty(c *Ctx, prop string) {
 	r := c.Res
 	r.Rule = "a completed pipestance under VDR in which a volatile stage wrote files and VDR removed at least one entry; distinct by (mode, set of stage-written files with their fate)"
+	t0 := time.Now()
+	phase := func(name string) {
+		r.note("phase %s: %d ms", name, time.Since(t0).Milliseconds())
+		t0 = time.Now()
+	}
 	vdrPureChecks(c, prop)
 	if prop == "C04" {
 		vdrFsChecks(c)
 	}
+	phase("pure+fs")
 	modes := []string{"rolling", "strict", "post"}
 	var specs []*VdrSpec
 	mk := func(name, src, mode string, seed int64) *VdrSpec {
@@ -177,9 +184,13 @@ func runVdrProperty(c *Ctx, prop string) {
 		cnames = append(cnames, k)
 	}
 	sort.Strings(cnames)
-	for _, k := range cnames {
-		for _, m := range modes {
+	for ki, k := range cnames {
+		for mi, m := range modes {
 			for s := int64(1); s <= 3; s++ {
+				// quick: one of the three schedules per (program, mode), rotating with the seed
+				if !c.Thorough && (int64(ki+mi)+c.Seed)%3 != s-1 {
+					continue
+				}
 				sp := mk("corpus:"+k, corpus[k], m, s)
 				sp.LateConsumers = s != 2
 				sp.NoExtra = s == 3
@@ -187,9 +198,9 @@ func runVdrProperty(c *Ctx, prop string) {
 			}
 		}
 	}
-	nGen, nOrch := 110, 30
+	nGen, nOrch := 64, 12
 	if c.Thorough {
-		nGen, nOrch = 1500, 300
+		nGen, nOrch = 1000, 150
 	}
 	stats := map[string]int{}
 	for i := 0; i < nGen; i++ {
@@ -221,9 +232,9 @@ func runVdrProperty(c *Ctx, prop string) {
 		specs = append(specs, sp)
 	}
 	// a sub-pipeline directory is relocated to another volume while mrp is down
-	nReloc := 10
+	nReloc := 6
 	if c.Thorough {
-		nReloc = 120
+		nReloc = 60
 	}
 	for i := 0; i < nReloc; i++ {
 		mode := []string{"post", "rolling", "strict", "post"}[c.Rng.Intn(4)]
@@ -246,6 +257,20 @@ func runVdrProperty(c *Ctx, prop string) {
 		specs = append(specs, mk(fmt.Sprint("orch", i), src, mode, c.Seed*7919+int64(i)))
 	}
 	results := RunVdrSpecs(specs, 14)
+	phase(fmt.Sprintf("tierA(%d runs)", len(specs)))
+	{
+		var sum, max int64
+		slow := ""
+		for i, res := range results {
+			if res != nil {
+				sum += res.WallMs
+				if res.WallMs > max {
+					max, slow = res.WallMs, specs[i].Name
+				}
+			}
+		}
+		r.note("tierA run times: sum %d ms, slowest %s %d ms", sum, slow, max)
+	}
 	var checks []VdrModelCheck
 	var owners []int
 	confirmed, tried := map[string]int{}, map[string]int{}
@@ -322,9 +347,20 @@ func runVdrProperty(c *Ctx, prop string) {
 		r.Histogram["gen-"+k] = v
 	}
 	// ---- Tier B: real processes, real goroutine timing
+	phase("collect")
 	if os.Getenv("VDR_NO_TIERB") == "" {
-		vdrTierB(c, prop)
+		// programs for the real-process pass: generated ones the in-process run above completed cleanly
+		var tbSrcs []string
+		for i, res := range results {
+			if res != nil && strings.HasPrefix(specs[i].Name, "gen") && res.Final == "complete" && len(res.Violations) == 0 &&
+				len(specs[i].CrashAt) == 0 && !specs[i].FailChunk && specs[i].FailConsumer == "" && !specs[i].LinkedRoot &&
+				!strings.Contains(specs[i].Src, "path") && !strings.Contains(specs[i].Src, "disabled =") {
+				tbSrcs = append(tbSrcs, specs[i].Src)
+			}
+		}
+		vdrTierB(c, prop, tbSrcs)
 	}
+	phase("tierB")
 	// ---- model correspondence
 	if len(checks) > 0 && c.Drv != nil {
 		reqs := make([][]string, len(checks))
@@ -332,6 +368,34 @@ func runVdrProperty(c *Ctx, prop string) {
 			reqs[i] = ck.Req
 		}
 		replies := c.Drv.AskBatch(reqs)
+		// the decidable hypotheses of the theorems (CfgOK, PathKinds, Sep, LinksTop) as the driver
+		// evaluated them on every replayed state
+		hypNames := []string{"CfgOK", "PathKinds", "Sep", "LinksTop"}
+		hypBad := map[string]bool{}
+		for i, rep := range replies {
+			j := strings.LastIndex(rep, " hyp=")
+			if j < 0 {
+				continue
+			}
+			flags := rep[j+5:]
+			replies[i] = rep[:j]
+			for k, name := range hypNames {
+				if k < len(flags) && flags[k] == '1' {
+					r.hist("hypothesis-" + name + "-holds")
+				} else {
+					r.hist("hypothesis-" + name + "-fails")
+					// LinksTop (needed by report_exact_partial / reclaims_all_unreferenced only) is known not to
+					// hold of runs below a linked root, where every entry carries further logical names:
+					// those runs are outside these two theorems (counted, not reported)
+					if name != "LinksTop" && !hypBad[name] {
+						hypBad[name] = true
+						r.violate(Violation{Kind: "correspondence", Key: prop + ":model:hypothesis-" + name,
+							What:  "the hypothesis " + name + " of the VDR theorems does not hold of a state of a real run that the model replays (" + checks[i].What + ")",
+							Input: map[string]interface{}{"spec": specs[owners[i]], "request": checks[i].Req}, Broken: "Vdr." + name})
+					}
+				}
+			}
+		}
 		agrees := func(ck VdrModelCheck, reply string) bool {
 			got, want := reply, ck.Expect
 			if ck.DiskOnly {
@@ -381,5 +445,6 @@ func runVdrProperty(c *Ctx, prop string) {
 				Input: map[string]interface{}{"spec": specs[owner], "request": ck.Req},
 				Impl:  ck.Expect, Model: replies[i], Broken: "Vdr." + ck.Name})
 		}
+		phase(fmt.Sprintf("model(%d requests)", len(checks)))
 	}
 }
